@@ -62,8 +62,9 @@ func c05Edits(s *specs.Spec, level string) *specs.ContainerEdits {
 
 type c05Defect struct {
 	kind, level, elem, variant string
-	spec                       *specs.Spec // struct-representable defect (nil for document-only defects)
-	doc                        *OMap       // the defective document
+	spec                       *specs.Spec       // struct-representable defect (nil for document-only defects)
+	doc                        *OMap             // the defective document
+	memFix                     func(*specs.Spec) // applied to the in-memory copy handed to the writer (what JSON cloning loses)
 }
 
 var c05Levels = []string{"spec", "dev0", "dev1", "dev2"}
@@ -74,12 +75,12 @@ func c05Defects(base *specs.Spec) []c05Defect {
 	mem := func(kind, level, elem, variant string, f func(s *specs.Spec)) {
 		s := cloneSpec(base)
 		f(s)
-		out = append(out, c05Defect{kind, level, elem, variant, s, specDoc(s)})
+		out = append(out, c05Defect{kind, level, elem, variant, s, specDoc(s), nil})
 	}
 	docd := func(kind, level, elem, variant string, f func(d *OMap)) {
 		d := cloneDoc(specDoc(base)).(*OMap)
 		f(d)
-		out = append(out, c05Defect{kind, level, elem, variant, nil, d})
+		out = append(out, c05Defect{kind, level, elem, variant, nil, d, nil})
 	}
 	idx := func(elem string) int {
 		if elem == "first" {
@@ -176,6 +177,17 @@ func c05Defects(base *specs.Spec) []c05Defect {
 		}
 		mem("device-name-duplicate", lvl, "-", "same as next", func(s *specs.Spec) { s.Devices[i].Name = s.Devices[(i+1)%3].Name })
 		mem("device-empty-edits", lvl, "-", "{}", func(s *specs.Spec) { s.Devices[i].ContainerEdits = specs.ContainerEdits{} })
+		// empty edits spelt as explicit empty lists: in the document and, for the writer, as empty non-nil slices
+		{
+			sp := cloneSpec(base)
+			sp.Devices[i].ContainerEdits = specs.ContainerEdits{}
+			d := specDoc(sp)
+			dv, _ := d.Get("devices")
+			dv.([]any)[i].(*OMap).Set("containerEdits", om("env", []any{}, "deviceNodes", []any{}, "hooks", []any{}, "mounts", []any{}, "additionalGids", []any{}))
+			out = append(out, c05Defect{"device-empty-edits", lvl, "-", "explicit empty lists", sp, d, func(s *specs.Spec) {
+				s.Devices[i].ContainerEdits = specs.ContainerEdits{Env: []string{}, DeviceNodes: []*specs.DeviceNode{}, Hooks: []*specs.Hook{}, Mounts: []*specs.Mount{}, AdditionalGIDs: []uint32{}}
+			}})
+		}
 	}
 	for _, lvl := range c05Levels {
 		lvl := lvl
@@ -322,7 +334,7 @@ func c05Defects(base *specs.Spec) []c05Defect {
 
 // c05Try runs one document through all entry points. wantOK says whether it
 // must be accepted. It returns discrepancies as (entry point, message).
-func c05Try(dir string, tag string, doc *OMap, mem *specs.Spec, enc string, wantOK bool, goodDev string) (bad [][2]string) {
+func c05Try(dir string, tag string, doc *OMap, mem *specs.Spec, enc string, wantOK bool, goodDev string, memFix ...func(*specs.Spec)) (bad [][2]string) {
 	fail := func(entry, format string, a ...any) {
 		bad = append(bad, [2]string{entry, fmt.Sprintf(format, a...)})
 	}
@@ -391,7 +403,13 @@ func c05Try(dir string, tag string, doc *OMap, mem *specs.Spec, enc string, want
 		wdir := filepath.Join(sub, "w")
 		if pv, _ := guard(func() {
 			cache, _ := cdi.NewCache(cdi.WithSpecDirs(wdir), cdi.WithAutoRefresh(false))
-			err = cache.WriteSpec(cloneSpecKeepNil(mem), "written."+enc)
+			ms := cloneSpecKeepNil(mem)
+			for _, f := range memFix {
+				if f != nil {
+					f(ms)
+				}
+			}
+			err = cache.WriteSpec(ms, "written."+enc)
 		}); pv != nil {
 			fail("Cache.WriteSpec", "panic: %v", pv)
 		} else {
@@ -446,7 +464,7 @@ func checkC05(c *Ctx) {
 			fmt.Sscanf(ds.Name[strings.LastIndex(ds.Name, ":")+1:], "%d", &i)
 			d := defects[i]
 			for _, enc := range []string{"json", "yaml"} {
-				bad := c05Try(dir, sanitize(ds.Name), d.doc, d.spec, enc, false, "")
+				bad := c05Try(dir, sanitize(ds.Name), d.doc, d.spec, enc, false, "", d.memFix)
 				c.Count("defective_documents", 1)
 				c.Count("defect:"+d.kind, 1)
 				c.Distinct(fmt.Sprintf("%s|%s|%s|%s|%s", d.kind, d.level, d.elem, d.variant, enc))
